@@ -89,3 +89,33 @@ def manifest_history(op2, i2, op3, i3, op1=0, i1=0, more=(), **kw):
         if p != "/" and not p.endswith("/") and p not in files:
             notes.append(f"manifest lists absent {p}")
     return bool(notes), "; ".join(notes) or "consistent after every step and in the saved package"
+
+
+def merge_images(twice, fill, master, already, **kw):
+    from odfdo import Element
+    dest, other = Document("text"), Document("text")
+    if fill:
+        other.styles.get_element("//office:styles").append(Element.from_tag('<draw:fill-image draw:name="F" xlink:href="Pictures/f.png"/>'))
+        other.set_part("Pictures/f.png", b"fill")
+        other.manifest.add_full_path("Pictures/f.png", "image/png")
+    if master:
+        other.styles.get_element("//office:master-styles").append(Element.from_tag(
+            '<style:master-page style:name="M"><style:header><text:p><draw:frame><draw:image xlink:href="Pictures/m.png"/></draw:frame></text:p></style:header></style:master-page>'))
+        other.set_part("Pictures/m.png", b"master")
+        other.manifest.add_full_path("Pictures/m.png", "image/png")
+    if already:
+        dest.set_part("Pictures/f.png", b"old")
+        dest.manifest.add_full_path("Pictures/f.png", "image/png")
+    dest.merge_styles_from(other)
+    if twice:
+        dest.merge_styles_from(other)
+    notes = []
+    for label, doc in (("dest", dest), ("other", other)):
+        ok, msg = _consistent(doc)
+        if not ok:
+            notes.append(f"{label}: {msg}")
+    if fill and dest.get_part("Pictures/f.png") != b"fill":
+        notes.append("fill image not copied")
+    if master and dest.get_part("Pictures/m.png") != b"master":
+        notes.append("master page image not copied")
+    return bool(notes), "; ".join(notes) or "consistent"
